@@ -308,6 +308,73 @@ def inject_all(exe, args, total, base_lines, seed, maxk, what):
     return n, None
 
 
+TABLES_MAIN = r"""
+int main(int argc, char **argv)
+{
+    FILE *fp = fopen(argv[1], "rb"); int rc;
+    if (!fp) return 5;
+    rc = yytables_fload(fp);
+    fclose(fp);
+    if (rc != 0) return 3;                 /* the loader reported its failure to the caller */
+    yyin = fopen(argv[2], "rb");
+    if (!yyin) return 5;
+    yylex();
+    yytables_destroy();
+    yylex_destroy();
+    return 0;
+}
+"""
+
+
+def tables_alloc_worker(case):
+    """A scanner that loads its tables from a --tables-file: every allocation request of the load (and of the scan) fails once."""
+    import sys
+    sys.path.insert(0, os.path.dirname(os.path.abspath(__file__)))
+    import c15
+    import backends
+    wd = os.path.join(engine._ROOT, "c%s" % case['id'])
+    os.makedirs(wd, exist_ok=True)
+    res = {'problems': [], 'lockstep': [], 'streams': [], 'id': case['id'], 'flex_opts': case['flex_opts'], 'injected': 0}
+    try:
+        prog = case['prog']
+        text = c15.spec_for(prog, Rng(case['seed']).fork("p"), "yy", ['tables-file="t.tables"', "noyyalloc", "noyyrealloc", "noyyfree"],
+                            COUNTDOWN['nr'] + backends.EMIT + TABLES_MAIN)
+        res['text'] = text
+        with open(os.path.join(wd, "s.l"), "w") as f:
+            f.write(text)
+        rc, out, err = run([engine._FLEX] + case['flex_opts'] + ["-o", "s.c", "s.l"], cwd=wd, timeout=60)
+        if rc != 0:
+            return res          # documented refusals of some table options (judged in C02 / C15)
+        rc, out, err = run(["gcc", "-std=gnu11", "-w", "-O0"] + SAN + ["-o", "s.exe", "s.c"], cwd=wd, timeout=180)
+        if rc != 0:
+            res['problems'].append(('compile-error', err.decode(errors='replace')[:400]))
+            return res
+        ip = os.path.join(wd, "in.bin")
+        with open(ip, "wb") as f:
+            f.write(bytes(case['input']))
+        exe, args = os.path.join(wd, "s.exe"), [os.path.join(wd, "t.tables"), ip]
+        acount = os.path.join(wd, "acount.txt")
+        rc, out, err = run([exe] + args, timeout=30, env=dict(ENV, ACOUNT=acount))
+        if rc != 0:
+            res['problems'].append(('scanner-abnormal', "fault-free run rc=%s %s" % (rc, err.decode(errors='replace')[:200])))
+            return res
+        total = int(open(acount).read().split()[0])
+        n, prob = inject_all(exe, args, total, out.decode(errors="replace").splitlines(), case['seed'], case.get('maxk', 40),
+                             "scanner with tables loaded by yytables_fload (%d requests)" % total)
+        res['injected'] = n
+        if prob:
+            prob['hist'] = 0
+            prob['ops'] = []
+            prob['files'] = [bytes(case['input']).hex()]
+            res['problems'].append(('alloc-fault', prob))
+        res['streams'] = [{'input': '', 'sc': 1, 'real': [(1, 1), (2, 1)], 'valid': True, 'text_ok': True}]
+        res['lastdfa'] = 5
+    except Exception as ex:
+        import traceback
+        res['problems'].append(('harness-error', repr(ex) + traceback.format_exc()[-300:]))
+    return res
+
+
 def stream_alloc_worker(case):
     """Stream programs (start-condition stack growth, REJECT state buffer, buffer growth with tiny buffers, %array) under allocation faults."""
     wd = os.path.join(engine._ROOT, "c%s" % case['id'])
@@ -355,6 +422,8 @@ def worker(case):
             res = eval_read_case(case)
         elif case['kind'] == 'salloc':
             res = stream_alloc_worker(case)
+        elif case['kind'] == 'talloc':
+            res = tables_alloc_worker(case)
         else:
             res = alloc_worker(case)
     except Exception as ex:
@@ -401,6 +470,12 @@ def build_cases(rng, tier):
         uses_reject = any(rl.get('trail') is not None for rl in c['prog']['rules'])
         c['cc_extra'] = (r.pick([["-DYY_BUF_SIZE=2"], ["-DYY_BUF_SIZE=8"], []]) if be != 'c99' and not uses_reject else [])
         c['maxk'] = 40 if tier == "quick" else 200
+        if i % 6 == 1:
+            # tables loaded at run time (yytables_fload): each table is a separate allocation request of the loader
+            tprog = rulesets.gen_program(r.fork("tp"), trailing=False, max_scs=0, csize=256)
+            cases.append({'id': "t%d" % i, 'kind': 'talloc', 'prog': tprog, 'backend': 'nr', 'seed': r.s, 'text': '', 'runs': [],
+                          'flex_opts': list(r.pick([[], ["-Ce"], ["-Cm"], ["-Cf"], ["-CF"], ["-Cfe"]])) + ["-8"], 'maxk': 40,
+                          'input': rulesets.gen_inputs(tprog, r.fork("tin"), count=1, maxlen=40)[0], 'focus': ['tables-file']})
         if i % 6 == 0:
             # the start-condition stack grows in steps of YY_START_STACK_INCR (25): nest deeper than two steps
             depth = r.pick([26, 30, 51, 60])
